@@ -104,6 +104,11 @@ def _iter_identifier_mentions(root: ast.AST) -> Iterable[Tuple[ast.AST, str]]:
     Function and class definitions that are members of a class are only included when their
     identifier is also written as a plain name somewhere. Otherwise they are only reachable as
     attributes, and attributes are included."""
+    for node in core.walk(root, ast.MatchClass):
+        # case Point(x=0): the keyword is an attribute of the subject
+        for name in node.kwd_attrs:
+            yield node, name
+
     plain_names = {node.id for node in core.walk(root, ast.Name)}
     class_members = set()
     for classdef in core.walk(root, ast.ClassDef):
